@@ -64,6 +64,11 @@ FaultsOf(ks) ==
         rep(i, k) == one(i, "rep", k, Finish(SR!Shift(pf[i], k), ks, i + 1))
     IN UNION {{del(i), dup(i)} \cup {rep(i, k) : k \in RepAt(i, n) \ {ks[i]}} : i \in 1..n}
 
+\* vacuity: which kinds of syntax nodes the module has (checks/syntax_part.py requires every kind to occur)
+NodeTag(n) == IF n.k = "bin" THEN "bin" \o n.op
+              ELSE IF n.k \in {"call", "fcall"} /\ n.builtin THEN "builtin " \o n.k
+              ELSE IF n.k = "struct" /\ n.opaque THEN "opaque struct" ELSE n.k
 EmitFaults == Complete =>
-    PrintT(<<"CASE", ToJson([toks |-> toks, ks |-> Ks, n |-> Len(pre), faults |-> FaultsOf(Ks)])>>)
+    PrintT(<<"CASE", ToJson([toks |-> toks, ks |-> Ks, n |-> Len(pre), tags |-> {NodeTag(pre[i]) : i \in 1..Len(pre)},
+                             faults |-> FaultsOf(Ks)])>>)
 =============================================================================
